@@ -64,7 +64,7 @@ def check_worker(ctx: Ctx) -> None:
     gets = [c for c in calls_in(loop) if method_call(c, 'get') is not None and not c.args]
     backlog = dotted(method_call(gets[0], 'get'))
     breaks = [n for n in inside if n.kind == 'break']
-    exits_normal = [(a, b) for a, b in leaving if a.kind in ('break',) or (a.kind == 'branch' and a.cond and a.stmt is loop)]
+    exits_normal = [(a, b) for a, b in leaving if a.kind in ('break',) or (a.kind == 'loop' and a.stmt is loop and b.kind == 'branch')]
     ctx.count('loop_normal_exits', len(exits_normal))
 
     def is_empty_true(e: ast.AST, o: bool) -> bool:
@@ -82,7 +82,7 @@ def check_worker(ctx: Ctx) -> None:
     for a, b in exits_normal:
         conds = dominating_conditions(g, a)
         eos = any(cond_implies(t, o, is_eos) for t, o, _ in conds)
-        if a.kind == 'branch':
+        if a.kind == 'loop':
             # leaving through the loop condition: the condition variable must never be set inside the loop
             names = {n.id for n in ast.walk(loop.test) if isinstance(n, ast.Name)}
             stores = [n for s in loop.body for n in walk_no_defs(s) if isinstance(n, ast.Name) and isinstance(n.ctx, ast.Store) and n.id in names]
